@@ -72,25 +72,26 @@ Section Formatter.
         | EBin o l r =>
             let c := N.max ctx' (bs_bin F o) in
             fmt l (c, PLeft, unb') ++ TS (sym_bin F o) false :: fmt r (c, PRight, unb')
-        | EUn u x => TS (sym_un F u) true :: fmt x (N.max ctx' (bs_un F), pos, unb')
+        (* ExprKind::write resets binary_position for every node that is not Binary (commit a318687) *)
+        | EUn u x => TS (sym_un F u) true :: fmt x (N.max ctx' (bs_un F), PUnspec, unb')
         | ERng l r =>
             let c := N.max ctx' (bs_rng F) in
-            fmt l (c, pos, unb') ++ TRg true true :: fmt r (c, pos, unb')
-        | ERngL l => fmt l (N.max ctx' (bs_rng F), pos, unb') ++ [TRg true false]
-        | ERngR r => TRg false true :: fmt r (N.max ctx' (bs_rng F), pos, unb')
+            fmt l (c, PUnspec, unb') ++ TRg true true :: fmt r (c, PUnspec, unb')
+        | ERngL l => fmt l (N.max ctx' (bs_rng F), PUnspec, unb') ++ [TRg true false]
+        | ERngR r => TRg false true :: fmt r (N.max ctx' (bs_rng F), PUnspec, unb')
         | ERng0 => [TRg false false]
         | ECall f args =>
             let c := N.max ctx' (bs_call F) in
-            fmt f (c, pos, unb') ++
+            fmt f (c, PUnspec, unb') ++
             (fix go (l : list expr) : list tok :=
-               match l with [] => [] | a :: t => fmt a (c, pos, true) ++ go t end) args
+               match l with [] => [] | a :: t => fmt a (c, PUnspec, true) ++ go t end) args
         | EGroup k es =>
             TOpen k ::
             (fix go (l : list expr) (i : nat) : list tok :=
                match l with
                | [] => []
-               | [a] => fmt a (0, pos, false)
-               | a :: t => fmt a (0, pos, false) ++ sep_of k i :: go t (S i)
+               | [a] => fmt a (0, PUnspec, false)
+               | a :: t => fmt a (0, PUnspec, false) ++ sep_of k i :: go t (S i)
                end) es O ++ [TClose k]
         | EAlias _ _ | ENamed _ _ => []
         end
@@ -98,25 +99,6 @@ Section Formatter.
 
   Definition fmt_top (e : expr) : list tok := fmt e st0.
 
-  (* The defect class of the binary_position leak: a range bound that is a binary operator of the range's own
-     strength whose associativity equals the position inherited from the nearest enclosing binary operator. *)
-  Definition bound_leaks (pos : position) (c : expr) : bool :=
-    match c with
-    | EBin o _ _ => (bs_bin F o =? bs_rng F) && assoc_matches pos (as_bin F o)
-    | _ => false
-    end.
-  Fixpoint leak (e : expr) (pos : position) {struct e} : bool :=
-    match e with
-    | EAtom _ | ERng0 => false
-    | EBin _ l r => leak l PLeft || leak r PRight
-    | EUn _ x => leak x pos
-    | ERng l r => bound_leaks pos l || bound_leaks pos r || leak l pos || leak r pos
-    | ERngL l => bound_leaks pos l || leak l pos
-    | ERngR r => bound_leaks pos r || leak r pos
-    | ECall f args => leak f pos || (fix go (l : list expr) : bool := match l with [] => false | a :: t => leak a pos || go t end) args
-    | EGroup _ es => (fix go (l : list expr) : bool := match l with [] => false | a :: t => leak a pos || go t end) es
-    | EAlias _ x | ENamed _ x => leak x pos
-    end.
 End Formatter.
 
 (* ------------------------------------------------------------------ compatibility of the formatter's tables with the parser's *)
@@ -206,7 +188,7 @@ Section Render.
     | TPipe => [124]
     | TArrow => [61; 62]
     | TAlias n => write_ident_part (ids R) n ++ [sp; 61]
-    | TNamed n => n ++ [58]
+    | TNamed n => write_ident_part (ids R) n ++ [58]
     end.
 
   (* is a blank written between two adjacent tokens? *)
